@@ -1,5 +1,5 @@
 ------------------------------ MODULE ShotsGen -------------------------------
-(* Generator for C44 (REPLAY).  One behaviour per case: Init picks a case, Emit prints the case      *)
+(* Generator for C44 (REPLAY).  One behaviour per case: Init/Pick choose a case, Emit prints the case *)
 (* together with the expected observable View computed by ShotsSpec.  The invariant Laws checks the  *)
 (* algebraic laws of the specification on every enumerated case (the oracle guards itself).          *)
 (*   op = "one"   : Shots(a)                                                                         *)
@@ -9,32 +9,38 @@ EXTENDS ShotsSpec, Json, TLC
 CONSTANTS Counts, Copies, MaxLen,          \* single specifications
           ACounts, ACopies, AMaxLen,       \* operands of + and *
           Scalars                          \* set of <<p, q>>
-VARIABLES c, done
+VARIABLES c, ph
 
 Entries(C, K) == {<<n, 0>> : n \in C} \cup {<<n, k>> : n \in C, k \in K}
 SeqsUpTo(E, m) == UNION {[1..k -> E] : k \in 1..m}
 NoneSpec == [k |-> "none", n |-> 0, e |-> <<>>]
 Specs(C, K, m) == {NoneSpec} \cup {[k |-> "int", n |-> n, e |-> <<>>] : n \in C}
                   \cup {[k |-> "seq", n |-> 0, e |-> s] : s \in SeqsUpTo(Entries(C, K), m)}
-Big == Specs(Counts, Copies, MaxLen)
+ASSUME MaxLen >= 2
 Small == Specs(ACounts, ACopies, AMaxLen)
 Case(op, a, b, p, q) == [op |-> op, a |-> a, b |-> b, p |-> p, q |-> q]
-Cases == {Case("one", a, NoneSpec, 1, 1) : a \in Big}
-    \cup {Case("add", a, b, 1, 1) : a \in Small, b \in Small}
-    \cup {Case("scale", a, NoneSpec, s[1], s[2]) : a \in Small, s \in Scalars}
-
-Init == c \in Cases /\ done = FALSE
+\* Two-level enumeration: Init picks the operation and the first operand (initial states are computed sequentially by TLC),
+\* Pick chooses the second operand / the scalar (explored by all workers in parallel), Emit prints the case.
+Init == /\ ph = 0
+        /\ \/ \E a \in Specs(Counts, Copies, MaxLen - 1) : c = Case("one", a, NoneSpec, 1, 1)
+           \/ \E a \in Small, op \in {"add", "scale"} : c = Case(op, a, NoneSpec, 1, 1)
+Pick == /\ ph = 0 /\ ph' = 1
+        /\ \/ c.op = "one" /\ c' = c
+           \/ c.op = "one" /\ c.a.k = "seq" /\ Len(c.a.e) = MaxLen - 1      \* the longest specifications are completed here
+                           /\ \E en \in Entries(Counts, Copies) : c' = [c EXCEPT !.a.e = Append(@, en)]
+           \/ c.op = "add" /\ \E b \in Small : c' = [c EXCEPT !.b = b]
+           \/ c.op = "scale" /\ \E s \in Scalars : c' = [c EXCEPT !.p = s[1], !.q = s[2]]
 
 Result(cs) == CASE cs.op = "one"   -> Expand(cs.a)
                 [] cs.op = "add"   -> Add(Expand(cs.a), Expand(cs.b))
                 [] cs.op = "scale" -> Scale(Expand(cs.a), cs.p, cs.q)
 Defined(cs) == cs.op # "scale" \/ ScaleDefined(Expand(cs.a), cs.p, cs.q)
 
-Emit == ~done /\ done' = TRUE /\ c' = c /\
+Emit == ph = 1 /\ ph' = 2 /\ c' = c /\
         PrintT(ToJson([c |-> c, def |-> Defined(c), exp |-> View(Result(c))]))
-Next == Emit
+Next == Pick \/ Emit
 
-Laws == done \/                                   \* every case is checked once, in its initial state
+Laws == ph # 1 \/                                 \* every case is checked once, when it has been picked
         LET la == TLCEval(Expand(c.a))  lb == TLCEval(Expand(c.b))  r == TLCEval(Result(c)) IN
         /\ ValidSpec(c.a) /\ ValidSpec(c.b)
         /\ LawSpec(c.a) /\ LawRLE(la) /\ LawBins(la) /\ LawTotal(la)
